@@ -113,6 +113,29 @@ Proof.
   destruct (MS.finalize_into_dirty MS.Release nu v (MS.Hs (fold_left skein_step blocks skein_init) b) n_out);
     reflexivity.
 Qed.
+(** more than (b): the record and the concrete model (release profile) move in lock-step
+    from EVERY state *)
+Definition skein_to_model (i : inst MS.state) : MS.hasher := MS.Hs (i_st i) (i_buf i).
+
+Lemma skein_real_new_sim :
+  MS.default MS.Release nu v (N.of_nat n_out) = MS.Ok (skein_to_model (h_new skein_real)).
+Proof. exact skein_default_ok. Qed.
+
+Lemma skein_real_update_sim i d :
+  MS.update MS.Release nu v (skein_to_model i) d = MS.Ok (skein_to_model (h_update skein_real i d)).
+Proof.
+  destruct i as [s b].
+  unfold h_update, skein_real, skein_to_model, MS.update.
+  cbn [h_size h_lazy h_init h_pre h_step h_fin i_st i_buf bb_input fst snd MS.h_buffer MS.h_state].
+  destruct (input_lazy b d) as [b1 blocks]. cbn [fst snd].
+  rewrite skein_process_blocks_ok. reflexivity.
+Qed.
+
+Lemma skein_real_finalize_sim i :
+  h_finalize skein_real i
+  = match MS.finalize_into_dirty MS.Release nu v (skein_to_model i) n_out with
+    | MS.Ok r => fst r | MS.Panic => [] end.
+Proof. reflexivity. Qed.
 End Real.
 
 (** the bound of the conformance theorem C05: bytes, fewer than 2^64 of them *)
